@@ -29,7 +29,7 @@ EXHAUSTIVE_NOTE = "thorough tier: every save point k of every generated run is e
 
 
 def budget(tier):
-    return {"cases": 40 if tier == "quick" else 240, "shards": 16, "wall": 900 if tier == "quick" else 3300}
+    return {"cases": 32 if tier == "quick" else 240, "shards": 16, "wall": 900 if tier == "quick" else 3300}
 
 
 @st.composite
